@@ -72,6 +72,32 @@ func (s *c13BlipSession) wrap(profile string, orig blip.Handler) blip.Handler {
 				if resp := msg.Response(); resp != nil {
 					rb, _ := resp.Body()
 					_ = json.Unmarshal(rb, &rec.Answers)
+					// One feed can list the same document more than once (the same revision as a change of one
+					// channel and as back-fill of another; or an older removal entry of one channel followed by the
+					// current revision). The BlipTesterClient would ask for every copy and then fail its own
+					// assertions ("incoming CV has lower version than the local revision") when they arrive; this
+					// client asks only for the last listed revision of a document and declines the earlier rows.
+					last := map[string]int{}
+					for i, row := range rec.Rows {
+						if len(row) >= 3 {
+							last[fmt.Sprint(row[1])] = i
+						}
+					}
+					changed := false
+					for i, row := range rec.Rows {
+						if i >= len(rec.Answers) || len(row) < 3 || rec.Answers[i] == nil {
+							continue
+						}
+						if last[fmt.Sprint(row[1])] != i {
+							rec.Answers[i] = nil
+							changed = true
+						}
+					}
+					if changed {
+						if nb, err := json.Marshal(rec.Answers); err == nil {
+							resp.SetBody(nb)
+						}
+					}
 				}
 			}
 		case db.MessageRev:
@@ -248,6 +274,23 @@ func (e *c13Env) blipPull() (*c13PullObs, bool) {
 				default:
 					cl.Replica[ro.ID] = ro.Rev
 					ro.Applied = "keep " + ro.Rev + " (known)"
+				}
+			case ro.Flags&4 != 0 && !ro.Deleted:
+				// removed from every channel the user can see: the flag alone tells the client to purge; the
+				// revision it asked for may come as a removal body, or as norev when it is no longer current
+				delete(cl.Replica, ro.ID)
+				ro.Applied = "purge(removed from all channels)"
+				for _, x := range byKey[ro.ID+"\x00"+ro.Rev] {
+					if !x.used {
+						x.used = true
+						if x.Profile == db.MessageNoRev {
+							e.run.Count("blip_norev", 1)
+							ro.Applied += ", norev " + x.Err
+						} else if x.Removed {
+							e.run.Count("blip_removed_bodies", 1)
+						}
+						break
+					}
 				}
 			default:
 				k := ro.ID + "\x00" + ro.Rev
